@@ -296,4 +296,47 @@ theorem bindingOf_lengths {m : Maps} {mac : Bytes} {b : Binding} (h : bindingOf 
   | some v => rw [hl] at h; exact decode_lengths h
 
 
+/-! ## read-modify-write of a record, SetMode over all records -/
+
+theorem existing_lengths (m : Maps) (mac : Bytes) :
+    (((AMap.lookup m.bindings (macKey mac)).bind Binding.decode).getD {}).addr4.length = 4 ∧
+    (((AMap.lookup m.bindings (macKey mac)).bind Binding.decode).getD {}).addr6.length = 16 := by
+  cases hb : (AMap.lookup m.bindings (macKey mac)).bind Binding.decode with
+  | none => exact ⟨rfl, rfl⟩
+  | some b =>
+    cases hl : AMap.lookup m.bindings (macKey mac) with
+    | none => rw [hl] at hb; simp at hb
+    | some v => rw [hl] at hb; exact decode_lengths hb
+
+theorem lookup_mapVal (f : Bytes → Bytes) (t : AMap Bytes Bytes) (k : Bytes) :
+    AMap.lookup (t.map fun e => (e.1, f e.2)) k = (AMap.lookup t k).map f := by
+  induction t with
+  | nil => rfl
+  | cons e rest ih =>
+    obtain ⟨k', v⟩ := e
+    simp only [List.map_cons, AMap.lookup_cons]
+    by_cases h : k' = k
+    · simp [h]
+    · simp [h, ih]
+
+theorem decode_withMode (v : Bytes) (mode : UInt8) :
+    Binding.decode (withMode v mode) = (Binding.decode v).map fun b => { b with mode := mode } := by
+  unfold withMode
+  cases hd : Binding.decode v with
+  | none => simp [hd]
+  | some b =>
+    obtain ⟨h4, h6⟩ := decode_lengths hd
+    simp only [Option.map_some]
+    exact Binding.decode_encode _ h4 h6
+
+theorem bindingOf_setMode (g : Mgr) (m : Maps) (mode : UInt8) (mac : Bytes) :
+    bindingOf (setMode g m mode).2 mac = (bindingOf m mac).map fun b => { b with mode := mode } := by
+  unfold bindingOf setMode
+  simp only []
+  have hl := lookup_mapVal (fun v => withMode v mode) m.bindings (macKey mac)
+  rw [hl]
+  cases AMap.lookup m.bindings (macKey mac) with
+  | none => rfl
+  | some v => simp only [Option.map_some, Option.bind_some]; exact decode_withMode v mode
+
 end Bng.Antispoof
